@@ -4046,6 +4046,22 @@ def bits_forward_items(repo):
     return out
 
 
+def trait_misc_items(repo):
+    """the one-line trait impls of the core: `Neg` (by value / by reference), `Not` (by value / by reference), `PartialOrd`,
+    `Default`, `as_limbs`, `into_limbs` — optional items (`Self::Output` is `Self`)"""
+    u = {'uint': True, 'self_ty': 'uint', 'group': 'traitmisc', 'externs': UINT_EXTERNS, 'optional': True,
+         'subst_after': {'Self::Output': 'Self', '-> Uint<BITS, LIMBS>': '-> Self'}}
+    a, b, c, l = repo + '/src/add.rs', repo + '/src/bits.rs', repo + '/src/cmp.rs', repo + '/src/lib.rs'
+    return [dict(u, file=a, fn='neg', lean='op_neg_val', key='Op::neg_val', after='Neg for Uint<BITS, LIMBS>'),
+            dict(u, file=a, fn='neg', lean='op_neg_ref', key='Op::neg_ref', after='Neg for &Uint<BITS, LIMBS>'),
+            dict(u, file=b, fn='not', lean='op_not_val', key='Op::not_val', after='Not for Uint<BITS, LIMBS>'),
+            dict(u, file=b, fn='not', lean='op_not_ref', key='Op::not_ref', after='Not for &Uint<BITS, LIMBS>'),
+            dict(u, file=c, fn='partial_cmp', lean='uint_partial_cmp', key='Uint::partial_cmp'),
+            dict(u, file=l, fn='default', lean='uint_default', key='Uint::default', after='Default for Uint<BITS, LIMBS>'),
+            dict(u, file=l, fn='as_limbs', lean='uint_as_limbs', key='Uint::as_limbs'),
+            dict(u, file=l, fn='into_limbs', lean='uint_into_limbs', key='Uint::into_limbs')]
+
+
 def macro_items(repo):
     """`pad_limbs` of the `uint!` proc macro (ruint-macro/src/lib.rs): trim / pad to the limb count and the range check"""
     f = repo + '/ruint-macro/src/lib.rs'
@@ -4134,6 +4150,7 @@ GROUPS = [('core', 'Words', ('Ruint.Gen.Prelude',)),
           ('der', 'WordsDer', ('Ruint.Gen.WordsBytes',)),
           ('str', 'WordsStr', ('Ruint.Gen.WordsRadix', 'Ruint.Gen.PreludeRes', 'Ruint.Gen.PreludeStr')),
           ('macro2', 'WordsMacro2', ('Ruint.Gen.Prelude', 'Ruint.Gen.PreludeRes', 'Ruint.Gen.PreludeStr')),
+          ('traitmisc', 'WordsTraitMisc', ('Ruint.Gen.WordsUint', 'Ruint.Gen.WordsUintMod')),
           ('bitsfwd', 'WordsBitsFwd', ('Ruint.Gen.WordsUint', 'Ruint.Gen.WordsBytes', 'Ruint.Gen.WordsStr', 'Ruint.Gen.WordsUintMod'))]
 
 
@@ -4171,6 +4188,7 @@ def translate_all(repo):
     items += der_items(repo)
     items += str_items(repo)
     items += bits_forward_items(repo)
+    items += trait_misc_items(repo)
     try:
         items += lehmer_items(repo)
     except (OSError, IOError) as ex:
